@@ -28,7 +28,7 @@ LEVEL = "model_checking"
 ALIGN_TOL = 1e-6
 
 DTS = ["0.1", "0.05", "0.2", "0.3", "0.25", "0.01", "0.7", "third"]
-STARTS = ["0", "0.1", "-0.3", "1.7"]
+STARTS = ["0", "0.1", "-0.3", "1.7", "-2500"]       # -2500: |t|/dt up to 2.5e5 (relative comparisons of times break there)
 FORMS = ["literal", "floatexpr", "off0.4", "off0.6", "off0.999", "mixed"]
 
 
@@ -163,6 +163,16 @@ def lattice_shard(args):
                       if m % 50 == 0 or m < 20 else range(len(dyn.times)), n_exp_c, st, dt, vio, m)
         n_max_seen["Tempo"] = max(n_max_seen["Tempo"], len(dyn.times) - 1)
         outcomes.add(("T", len(dyn.times) - 1 - n_exp))
+        if m % 7 == 3:
+            # a target that lies BEFORE the time already reached changes nothing
+            back = end_time(dts, starts, "floatexpr", m - 2)
+            nb = len(tempo.compute(back[0], progress_type="silent").times)
+            nm = len(mft.compute(back[0], progress_type="silent").times) if False else None
+            n_eval += 1
+            if nb != len(dyn.times):
+                vio.append((f"Tempo|{form}|earlier-target-advances-the-computation",
+                            f"Tempo dt={dts} start={starts} {form} m={m}: compute(target of m-2) after m changed the number "
+                            f"of states from {len(dyn.times)} to {nb}", m))
         # -- MeanFieldTempo
         mdyn = mft.compute(e, progress_type="silent")
         n_eval += 1
